@@ -2,8 +2,10 @@
   C13 — quadric constructors produce the quadric of their defining data.
 -/
 import Geo.Gen.Curve
+import Geo.Constructions
 import Geo.Proofs.Lemmas
 import Mathlib.Tactic.FieldSimp
+import Mathlib.Tactic.LinearCombination
 namespace Geo
 open Spec
 
@@ -23,6 +25,28 @@ theorem T13_from_points_contains (a b c d e : Nat → K) :
     c5Form a b c d e e = 0 := by
   simp only [c5Form, Gen.c5_m, Gen.c5_ace, Gen.c5_bde, Gen.c5_ade, Gen.c5_bce, det3, cross, sumRange]
   refine ⟨?_, ?_, ?_, ?_, ?_⟩ <;> ring
+
+/-- quadratic form of the `from_crossratio` conic -/
+def crForm (cr : K) (a b c d p : Nat → K) : K :=
+  sumRange 3 fun i => sumRange 3 fun j => p i * (crM cr a b c d i j + crM cr a b c d j i) * p j
+
+/-- **from_crossratio contains a, b, c, d**, and a point `p` lies on it exactly when the brackets satisfy
+    `[p,a,c][p,b,d] = cr·[p,a,d][p,b,c]` — the four points are seen from `p` under the cross ratio `cr` -/
+theorem T13_from_crossratio_contains (cr : K) (a b c d p : Nat → K) :
+    crForm cr a b c d a = 0 ∧ crForm cr a b c d b = 0 ∧ crForm cr a b c d c = 0 ∧ crForm cr a b c d d = 0 ∧
+    crForm cr a b c d p = 2 * (det3 p a c * det3 p b d - cr * (det3 p a d * det3 p b c)) := by
+  simp only [crForm, crM, det3, cross, sumRange]
+  refine ⟨?_, ?_, ?_, ?_, ?_⟩ <;> ring
+
+/-- **from_crossratio agrees with from_points**: if `cr` is the cross ratio under which a fifth point `e` sees a, b, c, d
+    (`[a,d,e][b,c,e]·cr = [a,c,e][b,d,e]`), the matrix of `from_points(a,b,c,d,e)` (regenerated) is `−[a,d,e][b,c,e]` times the
+    matrix of `from_crossratio(cr, a,b,c,d)`, entry by entry: the same conic -/
+theorem T13_from_crossratio_agrees (cr : K) (a b c d e : Nat → K)
+    (hcr : Gen.c5_ade a b c d e * Gen.c5_bce a b c d e * cr = Gen.c5_ace a b c d e * Gen.c5_bde a b c d e) (i j : Nat) :
+    Gen.c5_m (Gen.c5_ace a b c d e) (Gen.c5_bde a b c d e) (Gen.c5_ade a b c d e) (Gen.c5_bce a b c d e) a b c d i j
+      = -(Gen.c5_ade a b c d e * Gen.c5_bce a b c d e) * crM cr a b c d i j := by
+  simp only [Gen.c5_m, crM]
+  linear_combination (-(cross a d i * cross b c j)) * hcr
 
 end
 
